@@ -146,6 +146,29 @@ def drain (sync : Bool) : Nat → Eng → List Ev → RunOut
     let b := drain sync budget a.eng a.next
     { eng := b.eng, sent := a.sent ++ b.sent, popped := q ++ b.popped }
 
+/-! ### The loop as written: a FIFO of `(event, depth)` (proved equal to `drain` in `Lemmas`: `fifo_eq_drain`) -/
+
+/-- tag every event of a level with its depth -/
+def tag (d : Nat) (l : List Ev) : List (Ev × Nat) := l.map (fun e => (e, d))
+
+/-- the entry points' loop literally: `pending_events: VecDeque<(SharedEvent, usize)>`, `pop_front`,
+`depth >= MAX_CHAIN_DEPTH → continue`, outputs `push_back((e, depth + 1))`. `fuel` bounds the number
+of pops (the loop is a `while`). -/
+def fifo (sync : Bool) : Nat → Eng → List (Ev × Nat) → RunOut
+  | 0, E, _ => { eng := E, sent := [], popped := [] }
+  | _ + 1, E, [] => { eng := E, sent := [], popped := [] }
+  | fuel + 1, E, (e, d) :: q =>
+    if d ≥ maxChainDepth then fifo sync fuel E q
+    else
+      let a := dispatch sync E e (routesOf E.router e.ty)
+      let b := fifo sync fuel a.eng (q ++ tag (d + 1) a.next)
+      { eng := b.eng, sent := a.sent ++ b.sent, popped := e :: b.popped }
+
+/-- number of pops the loop performs for a queue that holds one level -/
+def pops (sync : Bool) : Nat → Eng → List Ev → Nat
+  | 0, _, q => q.length
+  | b + 1, E, q => q.length + pops sync b (level sync E q).eng (level sync E q).next
+
 /-- `process_inner` for one external event (no watermark tracker configured): queue = `[(event, 0)]` -/
 def processOne (sync : Bool) (E : Eng) (e : Ev) : RunOut := drain sync maxChainDepth E [e]
 
